@@ -1,0 +1,52 @@
+package values
+
+import "reflect"
+
+// DeepToLiquid returns value with the Drops resolved and the pointers followed that are nested in its maps,
+// slices and arrays, for the places that spell a whole container as text. Containers that can hold
+// neither are returned as they are.
+func DeepToLiquid(value any) any { return deepToLiquid(value, 0) }
+
+func deepToLiquid(value any, depth int) any {
+	value = ToLiquid(value)
+	if value == nil || depth > 32 {
+		return value
+	}
+	rv := reflect.ValueOf(value)
+	switch rv.Kind() {
+	case reflect.Ptr:
+		if rv.IsNil() || rv.Elem().Kind() == reflect.Struct {
+			return value
+		}
+		return deepToLiquid(rv.Elem().Interface(), depth+1)
+	case reflect.Map:
+		if !mayHoldIndirection(rv.Type().Elem().Kind()) {
+			return value
+		}
+		out := make(map[any]any, rv.Len())
+		for _, key := range rv.MapKeys() {
+			out[key.Interface()] = deepToLiquid(rv.MapIndex(key).Interface(), depth+1)
+		}
+		return out
+	case reflect.Slice, reflect.Array:
+		if _, isBytes := value.([]byte); isBytes || !mayHoldIndirection(rv.Type().Elem().Kind()) {
+			return value
+		}
+		out := make([]any, rv.Len())
+		for i := range out {
+			out[i] = deepToLiquid(rv.Index(i).Interface(), depth+1)
+		}
+		return out
+	default:
+		return value
+	}
+}
+
+func mayHoldIndirection(k reflect.Kind) bool {
+	switch k {
+	case reflect.Interface, reflect.Ptr, reflect.Map, reflect.Slice, reflect.Array:
+		return true
+	default:
+		return false
+	}
+}
